@@ -18,6 +18,7 @@ SHARDS = {'quick': 4, 'thorough': 16, 'quick_timeout': 1200, 'thorough_timeout':
 MODES = ('interp', 'largest', 'largest+smallest', 'all')
 C_CM = 2.99792458e10
 TOL = 1.2e-3
+LAWU = [None, u.nm, u.AA]          # unit the extinction law's wavelengths are tabulated in (None: micron)
 
 
 def curves_in_mode(mode, theta):
@@ -66,7 +67,7 @@ def run(ctx):
                'stored predictions (model_fluxes) are themselves checked against truth by C04')
     ctx.require_events('plot:call', 'curve-point:checked', 'curve-point:truth-checked')
     ctx.require_regimes('mode:interp', 'mode:largest', 'mode:largest+smallest', 'mode:all', 'input:object', 'input:file', 'multi-aperture', 'single-aperture',
-                        'cube:asc', 'cube:desc', 'selected>=2', 'beyond-table', 'filters:unsorted', 'two-sources-share-a-model', 'filters-share-an-aperture', 'filters>=12-distinct-apertures', 'cube:unit-not-mJy', 'filters:other-unit')
+                        'cube:asc', 'cube:desc', 'selected>=2', 'beyond-table', 'filters:unsorted', 'two-sources-share-a-model', 'filters-share-an-aperture', 'filters>=12-distinct-apertures', 'cube:unit-not-mJy', 'filters:other-unit', 'law:not-in-micron')
     n_pk = 5 if ctx.quick else 100
     for ip in range(n_pk):
         n_m = int(rng.integers(3, 8))
@@ -105,11 +106,13 @@ def run(ctx):
         wav = truth.wav[bi]
         lw = np.array([0.05, 0.2, 0.55, 1.0, 3.0, 10.0, 100.0, 2000.0])
         lc = 200.0 * (lw / 0.55) ** -1.3
-        law = gen.build_law(lw, lc)
+        law = gen.build_law(lw, lc, wav_unit=LAWU[ip % 3])
+        if LAWU[ip % 3] is not None:
+            ctx.regime('law:not-in-micron')
         k = O.ext_pattern(lw, lc, wav)
         if np.min(np.abs(k)) < 0.02:
             lc = 200.0 * (lw / 0.55) ** -0.6
-            law = gen.build_law(lw, lc)
+            law = gen.build_law(lw, lc, wav_unit=LAWU[ip % 3])
             k = O.ext_pattern(lw, lc, wav)
         if multi:
             dmin = float(gen.loguniform(rng, 0.3, 3.0))
